@@ -45,7 +45,7 @@ ASSUME_BLOCK = [
     "(deneb: inclusion later than one epoch) and payload extra_data of 0 / 31 / 32 bytes; in those configurations the Gwei constants differ too (MAX_EFFECTIVE_BALANCE 40 ETH, EJECTION_BALANCE "
     "33 ETH, the electra preset's MIN_ACTIVATION_BALANCE 24 ETH that deneb code could reach by mistake). `blk mode=payload` lines run the fork's "
     "ProcessExecutionPayload ALONE against process_execution_payload (ProcessBlock repeats the blob-commitment bound in CheckLimits, so a defect in the "
-    "payload step's own bound is invisible through the block entry); c03 also applies a second block of the same slot to the post-block state. Payload blocks also run (block entry and payload step alone) on a pre-state whose latest_execution_payload_header is still the DEFAULT one (a chain that reached the fork without ever processing a payload), with a payload parent hash that is zero (valid on every fork) or non-zero (bellatrix: the merge transition block, valid; capella/deneb: refused — the parent hash is compared always, c03). On the same default-header pre-state also the ENTIRE default (all-zero, empty) payload: bellatrix — execution not enabled, nothing processed, valid (c01, c03); capella/deneb — refused (c03), once on a pre-state that expects no withdrawals (every 0x01 credential prefix turned into 0x00: prev_randao fires) and once as it is. Hand-made operations signed ACROSS the state's fork boundary (fork.epoch >= 1, two versions): an attester slashing whose votes have data.slot in the last epoch before the fork and target.epoch = the fork epoch, a proposer slashing with headers of the last slot before the fork, an exit with exit.epoch = fork epoch - 1 — one correctly signed block carrying them (c01, c03) and each alone signed under the other version (c03). 'straddle' chains hold attestations back in the epoch before EVERY fork and in the first half of the fork epoch, so the backlog (target epoch before the fork; in deneb also more than one epoch late) is included by the new fork's rules. c03: a block's first BLS change on a validator whose credentials carry prefix 0x02 / 0xff over the same hash, or the BLS prefix over a wrong hash. The mainnet "
+    "payload step's own bound is invisible through the block entry); c03 also applies a second block of the same slot to the post-block state. Payload blocks also run (block entry and payload step alone) on a pre-state whose latest_execution_payload_header is still the DEFAULT one (a chain that reached the fork without ever processing a payload), with a payload parent hash that is zero (valid on every fork) or non-zero (bellatrix: the merge transition block, valid; capella/deneb: refused — the parent hash is compared always, c03). On the same default-header pre-state also the ENTIRE default (all-zero, empty) payload: bellatrix — execution not enabled, nothing processed, valid (c01, c03); capella/deneb — refused (c03), once on a pre-state that expects no withdrawals (every 0x01 credential prefix turned into 0x00: prev_randao fires) and once as it is. Hand-made operations signed ACROSS the state's fork boundary (fork.epoch >= 1, two versions): an attester slashing whose votes have data.slot in the last epoch before the fork and target.epoch = the fork epoch, a proposer slashing with headers of the last slot before the fork, an exit with exit.epoch = fork epoch - 1 — one correctly signed block carrying them (c01, c03) and each alone signed under the other version (c03). 'straddle' chains hold attestations back in the epoch before EVERY fork and in the first half of the fork epoch, so the backlog (target epoch before the fork; in deneb also more than one epoch late) is included by the new fork's rules. c03: a block's first BLS change on a validator whose credentials carry prefix 0x02 / 0xff over the same hash, or the BLS prefix over a wrong hash. c03 'compensating signatures': where the specification verifies several signatures one by one, two of them become s1 + X and s2 - X (G2 point arithmetic; each invalid, the sum unchanged — invisible to a batched verification): the two headers of a proposer slashing, the two indexed attestations of an attester slashing, two exits, an exit and the randao reveal. NOT covered: block bodies whose transactions exceed 10 MiB in total (the flat exchange format carries every transaction byte on both sides; no such block is generated). The mainnet "
     "constants themselves run in the thorough tier only",
 ]
 
